@@ -1101,11 +1101,24 @@ fn project(proj: &Proj, input: Vec<Env>, cx: &mut Ctx, is_final: bool) -> Result
                     }
                 }
             } else {
-                if lo > 0 && lo < n && keys_eq(&rows[lo - 1], &rows[lo]) && rows[lo - 1].iter().map(|v| v.canon()).collect::<Vec<_>>() != rows[lo].iter().map(|v| v.canon()).collect::<Vec<_>>() {
-                    cx.nondet = true;
-                }
-                if hi > 0 && hi < n && keys_eq(&rows[hi - 1], &rows[hi]) && rows[hi - 1].iter().map(|v| v.canon()).collect::<Vec<_>>() != rows[hi].iter().map(|v| v.canon()).collect::<Vec<_>>() {
-                    cx.nondet = true;
+                // a window edge that falls inside a group of rows with equal sort keys leaves
+                // the choice open whenever that group holds different rows
+                let canon_of = |r: &Vec<V>| r.iter().map(|v| v.canon()).collect::<Vec<_>>();
+                for edge in [lo, hi] {
+                    if edge > 0 && edge < n && keys_eq(&rows[edge - 1], &rows[edge]) {
+                        let mut a = edge - 1;
+                        while a > 0 && keys_eq(&rows[a - 1], &rows[edge]) {
+                            a -= 1;
+                        }
+                        let mut b = edge;
+                        while b + 1 < n && keys_eq(&rows[b + 1], &rows[edge]) {
+                            b += 1;
+                        }
+                        let first = canon_of(&rows[a]);
+                        if rows[a..=b].iter().any(|r| canon_of(r) != first) {
+                            cx.nondet = true;
+                        }
+                    }
                 }
             }
         }
